@@ -379,6 +379,7 @@ def run(prog: Program, roots=None, prop="C14", rid_prefix="R-C14") -> Results:
         from sa.rules import cursor
         cursor.check(prog, res, "R-C14-8", ("expressions/set.py", "expressions/scope.py", "expressions/source_code.py", "expressions/let.py"), 1)
         lookup_failures(prog, res, f"{rid_prefix}-6")
+        positions_are_own(prog, res, f"{rid_prefix}-14")
         identity_of_bindings(prog, res, f"{rid_prefix}-7")
     res.tables.append(f"sa/rules/c14.py:REVIEWED_NO_MIRROR ({len(REVIEWED_NO_MIRROR)} entries)")
     return res
@@ -674,3 +675,34 @@ def mirrors_follow_values(prog: Program, res: Results, rid: str) -> None:
                             f"{m.key} changes `self.{container}` but never touches `self.{fld}`, which {', '.join(w.key for w in writers)[:80]} fill "
                             f"with bindings of that list: after `del s[k]` the remembered binding is still found, so `s[k] = v` updates the "
                             f"detached binding and the key never reappears in the text")
+
+
+def positions_are_own(prog: Program, res: Results, rid: str) -> None:
+    """R-C14-14: a by-name operation of the scope list addresses the element it looked up"""
+    from sa import indexalign
+    r = res.rule(rid, "positions address the list they were computed on: where a by-name method of Scope (a list subclass) reads, "
+                 "replaces or deletes `self[<position>]`, the position is the enumerate counter of a loop over `self` itself, or "
+                 "`.index()` on a list with one entry per item of `self` — never a position in a filtered copy", floor=3)
+    if "Scope" not in prog.classes:
+        res.unclass("class Scope not found")
+        return
+    for f in prog.all_functions():
+        if f.cls != "Scope" or f.parent is not None:
+            continue
+        for node, idx in indexalign.self_index_uses(f):
+            if not isinstance(idx, ast.Name):
+                continue
+            if idx.id in f.params():
+                continue  # the caller's own position (list protocol: `scope[3]`), not a by-name lookup
+            r.instances += 1
+            res.analysed_functions.add(f.key)
+            orig = indexalign.origins(prog, f, idx)
+            bad = [w for k, w in orig if k == "misaligned"] + [f"it is a position in `{w}`, not in the scope list" for k, w in orig if k == "aligned" and w != "self"]
+            unknown = [w for k, w in orig if k == "unknown"]
+            r.ob(not bad, {"site": f.key, "use": norm(node)[:50], "position_from": sorted({f"{k}:{w}" for k, w in orig})[:4]})
+            if bad:
+                res.add(rid, (f.key, "position computed on another sequence", norm(node)[:40]), f.loc(node),
+                        f"{f.key}: `{norm(node)[:60]}` addresses the scope list by `{idx.id}`, but {bad[0]}: with an `inherit` entry (or any "
+                        f"skipped item) before the binding, a different element is read, overwritten or deleted than the one looked up by name")
+            elif unknown:
+                res.unclass(f"{f.key}: where the position `{idx.id}` in `{norm(node)[:40]}` comes from was not recognised ({unknown[0]})")
